@@ -58,7 +58,7 @@ def conj(*gs):
     return r
 
 
-_UNQUOTED = re.compile(r'^[a-z][a-zA-Z0-9_]*$')
+_UNQUOTED = re.compile(r'[a-z][a-zA-Z0-9_]*\Z')
 _RESERVED = {'true', 'fail'}
 
 
